@@ -1,6 +1,6 @@
 (* The match arm of a message variant - macro logic translated from sylvia-derive (GenImpMacro.leg_fns). *)
 From Coq Require Import String List Bool Arith Lia.
-Require Import SV.Model.Imp SV.Model.GenImpMacro SV.Facts.ImpFacts SV.Facts.MacroRefine.
+Require Import SV.Model.Imp SV.Model.GenImpLeg SV.Facts.ImpFacts SV.Facts.MacroRefine.
 Import ListNotations.
 Open Scope string_scope.
 Open Scope list_scope.
